@@ -17,7 +17,7 @@
    `same s a b`       : a and b have the same union-find root in s.          *)
 From Coq Require Import ZArith List Bool Relations.
 From CSS Require Import Equiv.Model Equiv.Ref Equiv.UF Equiv.Inv Equiv.Hist Equiv.Path Equiv.Cov
-  Equiv.Complete Equiv.Total Equiv.Neutral.
+  Equiv.Complete Equiv.Total Equiv.Neutral Equiv.Stale.
 From CSS Require Gen.EquivHeaviest.
 From CSS Require Import Equiv.GenBridge.
 Import ListNotations.
@@ -367,6 +367,48 @@ Theorem C06_complete_partial_edges_kept : forall ops s rs a b,
   same s a b \/
   exists k l e, In (k, l) (oneway s) /\ In e l /\ same s k a /\ same s e b.
 Proof. intros ops s rs a b E H. exact (edges_covered order order_In ops s rs E a b H). Qed.
+
+(* 9. THE EXACT PARTITION AT ANY TIME (Equiv/Stale.v).  Between two cycle detections the classes are
+      NOT the strongly connected components (a one-way edge that closes a cycle merges nothing until
+      connect_cycles runs: replayed on the code, `add_one_way_edge(1,2); connect_cycles();
+      add_one_way_edge(2,1); equivalent(1,2)` is False).  What `equivalent` answers in EVERY reachable
+      state: after  pre ++ Connect :: post  with no Connect in post, exactly the closure of
+      "mutually reachable along the edges recorded by pre" (the components at the last detection)
+      under the two-way edges requested by post; before the first Connect, the closure of the
+      two-way edges.  One-way edges, set_verified and queries change no class (C06_step_exact).
+      The right-hand sides do not mention `order`: every Boolean the queries return, in stale states
+      too, is independent of the set-iteration order. *)
+Theorem C06_step_exact : forall ops s rs o s' r,
+  exec order init ops = Some (s, rs) -> step order s o = Some (s', r) -> o <> Connect ->
+  forall x y, same s' x y <->
+    (same s x y \/
+     exists a b, o = TwoWay a b /\ ((same s x a /\ same s y b) \/ (same s x b /\ same s y a))).
+Proof.
+  intros ops s rs o s' r E St NC.
+  exact (step_same_exact order ops s o s' r (reach_inv order order_In _ _ _ E) St NC).
+Qed.
+
+Theorem C06_exact_partition : forall pre post s rs a b s' e,
+  Forall (fun o => o <> Connect) post ->
+  exec order init (pre ++ Connect :: post) = Some (s, rs) ->
+  equivalent s a b = Some (s', e) ->
+  (e = true <-> clos_refl_sym_trans Z (gen pre post) a b).
+Proof.
+  intros pre post s rs a b s' e F E Q.
+  rewrite <- (exact_after_connect order order_In pre post s rs F E a b).
+  apply equivalent_spec in Q. destruct Q as (_ & Q). exact Q.
+Qed.
+
+Theorem C06_exact_partition_before_connect : forall ops s rs a b s' e,
+  Forall (fun o => o <> Connect) ops ->
+  exec order init ops = Some (s, rs) ->
+  equivalent s a b = Some (s', e) ->
+  (e = true <-> clos_refl_sym_trans Z (twoway ops) a b).
+Proof.
+  intros ops s rs a b s' e F E Q.
+  rewrite <- (exact_before_connect order order_In ops s rs F E a b).
+  apply equivalent_spec in Q. destruct Q as (_ & Q). exact Q.
+Qed.
 
 End C06.
 
@@ -950,6 +992,62 @@ Proof.
   exact (C06_path order order_In ops s rs a b s' r E Q).
 Qed.
 
+(* the exact partition without the "= Some" hypotheses: every history has a final state, every query an
+   answer, and the answer is the order-free closure *)
+Theorem C06_exact_partition_total : forall pre post a b,
+  Forall (fun o => o <> Connect) post ->
+  exists s rs s' e, exec order init (pre ++ Connect :: post) = Some (s, rs) /\
+    equivalent s a b = Some (s', e) /\
+    (e = true <-> clos_refl_sym_trans Z (gen pre post) a b).
+Proof.
+  intros pre post a b F. destruct (C06_exec_total_ex (pre ++ Connect :: post)) as (s & rs & E).
+  destruct (equivalent_total s a b (exec_wf order order_len _ _ _ _ wf_init E)) as (s' & e & Q & _).
+  exists s, rs, s', e. split; auto. split; auto.
+  exact (C06_exact_partition order order_In pre post s rs a b s' e F E Q).
+Qed.
+
+Theorem C06_exact_partition_before_connect_total : forall ops a b,
+  Forall (fun o => o <> Connect) ops ->
+  exists s rs s' e, exec order init ops = Some (s, rs) /\
+    equivalent s a b = Some (s', e) /\
+    (e = true <-> clos_refl_sym_trans Z (twoway ops) a b).
+Proof.
+  intros ops a b F. destruct (C06_exec_total_ex ops) as (s & rs & E).
+  destruct (equivalent_total s a b (exec_wf order order_len _ _ _ _ wf_init E)) as (s' & e & Q & _).
+  exists s, rs, s', e. split; auto. split; auto.
+  exact (C06_exact_partition_before_connect order order_In ops s rs a b s' e F E Q).
+Qed.
+
+(* hence: two set-iteration orders give the same Boolean, in EVERY state (stale ones included) *)
+Theorem C06_equivalent_order_independent : forall (order' : list Z -> list Z),
+  (forall l x, In x (order' l) <-> In x l) ->
+  forall ops s rs s1 e s2 rs2 s3 e' a b,
+  exec order init ops = Some (s, rs) -> equivalent s a b = Some (s1, e) ->
+  exec order' init ops = Some (s2, rs2) -> equivalent s2 a b = Some (s3, e') ->
+  e = e'.
+Proof.
+  intros order' order_In' ops s rs s1 e s2 rs2 s3 e' a b E Q E' Q'.
+  (* split the history at its last Connect, if any *)
+  assert (D : Forall (fun o => o <> Connect) ops \/
+              exists pre post, ops = pre ++ Connect :: post /\ Forall (fun o => o <> Connect) post).
+  { clear. induction ops as [|o ops IH]; [left; constructor|].
+    destruct IH as [F|(pre & post & -> & F)].
+    - destruct o; try (left; constructor; [discriminate|exact F]).
+      right. exists [], ops. split; [reflexivity|exact F].
+    - right. exists (o :: pre), post. split; [reflexivity|exact F]. }
+  destruct D as [F|(pre & post & -> & F)].
+  - pose proof (C06_exact_partition_before_connect order order_In ops s rs a b s1 e F E Q) as H1.
+    pose proof (C06_exact_partition_before_connect order' order_In' ops s2 rs2 a b s3 e' F E' Q') as H2.
+    destruct e, e'; auto; [exfalso|exfalso].
+    + assert (X : false = true) by (apply H2, H1; reflexivity). discriminate X.
+    + assert (X : false = true) by (apply H1, H2; reflexivity). discriminate X.
+  - pose proof (C06_exact_partition order order_In pre post s rs a b s1 e F E Q) as H1.
+    pose proof (C06_exact_partition order' order_In' pre post s2 rs2 a b s3 e' F E' Q') as H2.
+    destruct e, e'; auto; [exfalso|exfalso].
+    + assert (X : false = true) by (apply H2, H1; reflexivity). discriminate X.
+    + assert (X : false = true) by (apply H1, H2; reflexivity). discriminate X.
+Qed.
+
 End C06_total.
 
 Theorem C06_total_needs_order_len :
@@ -1068,6 +1166,71 @@ Theorem C06_heaviest_is_source : forall s ra rb,
 Proof. exact heaviest_is_source. Qed.
 
 Print Assumptions C06_equivalent_is_same.
+(* covers C06_exact_partition / C06_step_exact: a STALE state.  After a6_ops ++ [Connect] (classes
+   {1,2,3,4,8} {5} {6,7} {9}) the one-way cycle 5 -> 9 -> 5 is recorded but merges nothing, the two-way
+   edge 5 - 6 merges {5} with {6,7}: equivalent(5,9) is False although 5 and 9 are mutually reachable
+   along recorded edges, equivalent(5,7) is True; both answers are what the theorem says *)
+Definition a6_stale : list op := [OneWay 5 9; OneWay 9 5; QEquiv 5 9; TwoWay 5 6; SetVerified 9].
+Definition a6_sS : db := Eval vm_compute in fst (a6_run (a6_ops ++ Connect :: a6_stale)).
+Definition a6_rsS : list res := Eval vm_compute in snd (a6_run (a6_ops ++ Connect :: a6_stale)).
+Lemma a6_execS : exec isort init (a6_ops ++ Connect :: a6_stale) = Some (a6_sS, a6_rsS).
+Proof. vm_compute. reflexivity. Qed.
+Lemma a6_stale_no_connect : Forall (fun o => o <> Connect) a6_stale.
+Proof. repeat constructor; discriminate. Qed.
+Example C06_exact_partition_nonvacuous :
+  (false = true <-> clos_refl_sym_trans Z (gen a6_ops a6_stale) 5 9) /\
+  (true = true <-> clos_refl_sym_trans Z (gen a6_ops a6_stale) 5 7) /\
+  (clos_refl_trans Z (recorded (a6_ops ++ Connect :: a6_stale)) 5 9 /\
+   clos_refl_trans Z (recorded (a6_ops ++ Connect :: a6_stale)) 9 5).
+Proof.
+  split; [|split].
+  - eapply (C06_exact_partition isort isort_In a6_ops a6_stale a6_sS a6_rsS 5 9 _ false
+              a6_stale_no_connect a6_execS). vm_compute. reflexivity.
+  - eapply (C06_exact_partition isort isort_In a6_ops a6_stale a6_sS a6_rsS 5 7 _ true
+              a6_stale_no_connect a6_execS). vm_compute. reflexivity.
+  - split; apply rt_step; (split; [discriminate|]); right; right; unfold a6_ops, a6_stale; simpl; tauto.
+Qed.
+(* ... and before any detection: a6_ops itself contains no Connect; 1 ~ 8 through the two-way edges
+   1 - 2, 8 - 2, but 2 and 3 (one-way cycle 2 -> 3 -> 4 -> 2, not yet detected) are apart *)
+Lemma a6_ops_no_connect : Forall (fun o => o <> Connect) a6_ops.
+Proof. repeat constructor; discriminate. Qed.
+Example C06_exact_partition_before_connect_nonvacuous :
+  (true = true <-> clos_refl_sym_trans Z (twoway a6_ops) 1 8) /\
+  (false = true <-> clos_refl_sym_trans Z (twoway a6_ops) 2 3).
+Proof.
+  split.
+  - eapply (C06_exact_partition_before_connect isort isort_In a6_ops a6_s a6_rs 1 8 _ true
+              a6_ops_no_connect a6_exec). vm_compute. reflexivity.
+  - eapply (C06_exact_partition_before_connect isort isort_In a6_ops a6_s a6_rs 2 3 _ false
+              a6_ops_no_connect a6_exec). vm_compute. reflexivity.
+Qed.
+Example C06_step_exact_nonvacuous : forall s' r,
+  step isort a6_sC (OneWay 5 9) = Some (s', r) -> forall x y, same s' x y <-> same a6_sC x y.
+Proof.
+  intros s' r St x y.
+  rewrite (C06_step_exact isort isort_In (a6_ops ++ [Connect]) a6_sC a6_rsC (OneWay 5 9) s' r
+             ltac:(vm_compute; reflexivity) St ltac:(discriminate) x y).
+  split; [intros [S|(a & b & E & _)]; [exact S|discriminate E]|left; assumption].
+Qed.
+
+(* covers C06_equivalent_order_independent: the stale history above under the DESCENDING iteration order
+   (another representative in several classes) answers equivalent(5,7) and equivalent(5,9) alike *)
+Definition rsort (l : list Z) : list Z := rev (isort l).
+Lemma rsort_In : forall l x, In x (rsort l) <-> In x l.
+Proof. intros l x. unfold rsort. rewrite <- in_rev. apply isort_In. Qed.
+Example C06_equivalent_order_independent_nonvacuous :
+  (exists p, exec rsort init (a6_ops ++ Connect :: a6_stale) = Some p) /\
+  forall s2 rs2 s3 e', exec rsort init (a6_ops ++ Connect :: a6_stale) = Some (s2, rs2) ->
+    equivalent s2 5 9 = Some (s3, e') -> false = e'.
+Proof.
+  split; [eexists; vm_compute; reflexivity|].
+  intros s2 rs2 s3 e' E' Q'.
+  eapply (C06_equivalent_order_independent isort isort_In rsort rsort_In
+            (a6_ops ++ Connect :: a6_stale) a6_sS a6_rsS _ false s2 rs2 s3 e' 5 9 a6_execS);
+    [vm_compute; reflexivity|exact E'|exact Q'].
+Qed.
+
+
 Print Assumptions C06_sound.
 Print Assumptions C06_edges_recorded.
 Print Assumptions C06_reference_scc_correct.
@@ -1108,3 +1271,9 @@ Print Assumptions C06_neutral_records_nothing.
 Print Assumptions C06_connect_cycles_idempotent.
 Print Assumptions C06_classes_are_sccs_after_neutral_total.
 Print Assumptions C06_representative_function.
+Print Assumptions C06_step_exact.
+Print Assumptions C06_exact_partition.
+Print Assumptions C06_exact_partition_before_connect.
+Print Assumptions C06_exact_partition_total.
+Print Assumptions C06_exact_partition_before_connect_total.
+Print Assumptions C06_equivalent_order_independent.
